@@ -231,8 +231,19 @@ fn session(sc: &ScenarioB, opts_keep: usize) -> (Vec<Found>, Vec<StepRecord>, St
             keep: opts_keep,
         };
         let restrictions = SearchRestrictions { depth: step.go.depth };
+        let generation_before = state.tt.generation;
         let best = search::search(&game, &mut state, &mut ts, &restrictions, &options, &mut reporter);
         let best_s = oracle::move_str(best);
+        // the table's search counter counts searches: one search advances it once (if at all)
+        let advanced = state.tt.generation.wrapping_sub(generation_before);
+        if advanced > 1 {
+            add_found(
+                &mut found,
+                "tt-generation-per-search",
+                format!("search #{i} (`{}` in {}) advanced the table's search counter {advanced} times: entries it stored itself count as older within the same search", step.go.line(), game.to_fen()),
+                "tt-generation-per-search".into(),
+            );
+        }
         let limit_ignored = seam::with_sim(|s| s.liveness_violation.take()).flatten();
         if let Some(v) = limit_ignored {
             add_found(&mut found, "limit-ignored", format!("search #{i} (`{}` in {}): {v}", step.go.line(), game.to_fen()), "limit-ignored".into());
